@@ -19,7 +19,7 @@ def ren_stream(probe, name, mode, cases, rule, exhaustive=False):
     def work(ch):
         outs, cr = run_impl([probe], ch, timeout=600)
         outs = [o.replace("ren ", mode + " ", 1) if o.startswith("ren ") else o for o in outs]
-        return outs[:2], cr, run_driver(outs)
+        return [o for o in outs if not o.endswith(" crash=1")][:2], cr, run_driver(outs)
     with ThreadPoolExecutor(max_workers=NCPU) as ex:
         for outs, cr, d in ex.map(work, chunks(cases, NCPU) if cases else []):
             sr.merge_driver(d); sr.crashes += cr
